@@ -9,7 +9,7 @@ def run(ctx):
                               env={"VERIF_GRAPH": res["dot"]}, timeout=900)
         vlib.absorb(ctx, rep, "cover-" + name)
     # the same edges with the real matrix pre-filled so that they straddle the 65536-entry row boundary
-    for prefill in (65534, 65536 + 65535):
+    for prefill in (65534, 65536 + 3, 65536 + 65535):
         rep = vlib.go_harness(ctx, ".", "TestVerifRegistryCover", name="cover-matrix-prefill%d" % prefill, tags="verif gc_opt",
                               env={"VERIF_GRAPH": res["dot"], "VERIF_PREFILL": prefill,
                                    "VERIF_MAX_EDGES": 1200 if ctx.thorough else 400}, timeout=1200)
